@@ -235,6 +235,14 @@ def build_input(inp, d, tag):
         if c and c["type"] == "unsup":
             si = c["s"] % len(streams)
             streams[si] = patch_unsupported_check(streams[si], c["newid"])
+            if c.get("all"):
+                # every Stream carries an unverifiable check, and 1-2 empty Streams (no Blocks) of the same kind come first: the decoder
+                # announces LZMA_UNSUPPORTED_CHECK several times before the first byte of data
+                chk = inp["streams"][si]["check"]
+                empty = patch_unsupported_check(xz_compress(b"", ["-0", "-C", chk], d, f"{tag}-empty"), c["newid"])
+                streams = [patch_unsupported_check(x, c["newid"]) for x in streams]
+                streams = [empty] * c["all"] + streams
+                pads = [b""] * c["all"] + pads
         offs, pos = [], 0
         for s, p in zip(streams, pads):
             offs.append(pos)
@@ -766,7 +774,7 @@ def corrupt_strategy(draw):
     if typ is None:
         return None
     if typ == "unsup":
-        return {"type": "unsup", "s": draw(st.integers(0, 2)), "newid": draw(st.integers(0, 1))}
+        return {"type": "unsup", "s": draw(st.integers(0, 2)), "newid": draw(st.integers(0, 1)), "all": draw(st.sampled_from([0, 0, 1, 2]))}
     if typ == "append":
         return {"type": "append", "n": draw(st.integers(1, 13)), "b": draw(st.sampled_from([0, 255, 0xFD]))}
     c = {"type": typ, "s": draw(st.integers(0, 2)), "region": draw(st.sampled_from(["ix", "bh", "bc", "bp", "sf", "sh", "any"])), "k": draw(st.integers(0, 5)),
